@@ -1,4 +1,9 @@
 
+(** val xorb : bool -> bool -> bool **)
+
+let xorb b1 b2 =
+  if b1 then if b2 then false else true else b2
+
 (** val negb : bool -> bool **)
 
 let negb = function
@@ -12247,6 +12252,765 @@ let dispatch_option op a =
             then Some (VL (map vnat (writes (as_str a))))
             else None
 
+(** val chSP : z **)
+
+let chSP =
+  Zpos (XO (XO (XO (XO (XO XH)))))
+
+(** val chBS : z **)
+
+let chBS =
+  Zpos (XO (XO (XI (XI (XI (XO XH))))))
+
+(** val chBAR : z **)
+
+let chBAR =
+  Zpos (XO (XO (XI (XI (XI (XI XH))))))
+
+(** val chBANG : z **)
+
+let chBANG =
+  Zpos (XI (XO (XO (XO (XO XH)))))
+
+(** val chDOLLAR : z **)
+
+let chDOLLAR =
+  Zpos (XO (XO (XI (XO (XO XH)))))
+
+(** val chQUOTE : z **)
+
+let chQUOTE =
+  Zpos (XI (XI (XI (XO (XO XH)))))
+
+(** val chCARET : z **)
+
+let chCARET =
+  Zpos (XO (XI (XI (XI (XI (XO XH))))))
+
+type kind =
+| KFuzzy
+| KExact
+| KBoundary
+| KPrefix
+| KSuffix
+| KEqual
+
+type case_mode =
+| CaseSmart
+| CaseIgnore
+| CaseRespect
+
+type qopts = { q_fuzzy : bool; q_extended : bool; q_case : case_mode;
+               q_normalize : bool }
+
+type sterm = { t_kind : kind; t_inv : bool; t_text : str; t_cs : bool;
+               t_nm : bool }
+
+(** val is_some : 'a1 option -> bool **)
+
+let is_some = function
+| Some _ -> true
+| None -> false
+
+(** val starts : z -> str -> bool **)
+
+let starts c = function
+| [] -> false
+| x :: _ -> Z.eqb x c
+
+(** val ends : z -> str -> bool **)
+
+let ends c s =
+  starts c (rev s)
+
+(** val trim_left : str -> str **)
+
+let trim_left q =
+  drop_while (fun c -> Z.eqb c chSP) q
+
+(** val trim_right_rev : str -> str **)
+
+let rec trim_right_rev r = match r with
+| [] -> []
+| c :: r' ->
+  if Z.eqb c chSP
+  then (match r' with
+        | [] -> trim_right_rev r'
+        | b :: _ -> if Z.eqb b chBS then r else trim_right_rev r')
+  else r
+
+(** val trim : str -> str **)
+
+let trim q =
+  rev (trim_right_rev (rev (trim_left q)))
+
+(** val emit : 'a1 list -> 'a1 list list -> 'a1 list list **)
+
+let emit cur l =
+  match cur with
+  | [] -> l
+  | _ :: _ -> cur :: l
+
+(** val tokens_aux : str -> str -> str list **)
+
+let rec tokens_aux s cur =
+  match s with
+  | [] -> emit (rev cur) []
+  | c :: r ->
+    if Z.eqb c chSP
+    then emit (rev cur) (tokens_aux r [])
+    else (match r with
+          | [] -> tokens_aux r (c :: cur)
+          | b :: r' ->
+            if (&&) (Z.eqb c chBS) (Z.eqb b chSP)
+            then tokens_aux r' (chSP :: cur)
+            else tokens_aux r (c :: cur))
+
+(** val tokens : str -> str list **)
+
+let tokens s =
+  tokens_aux s []
+
+(** val lower_str : char_ops -> str -> str **)
+
+let lower_str co s =
+  map (lower1 co) s
+
+(** val norm_str : char_ops -> str -> str **)
+
+let norm_str co s =
+  map co.co_norm s
+
+(** val case_of : char_ops -> case_mode -> str -> bool **)
+
+let case_of co m tok =
+  match m with
+  | CaseSmart -> negb (str_eqb tok (lower_str co tok))
+  | CaseIgnore -> false
+  | CaseRespect -> true
+
+(** val norm_of : char_ops -> bool -> str -> bool **)
+
+let norm_of co normalize tok =
+  (&&) normalize (str_eqb (lower_str co tok) (norm_str co (lower_str co tok)))
+
+(** val classify : char_ops -> qopts -> str -> sterm option **)
+
+let classify co o tok =
+  let cs = case_of co o.q_case tok in
+  let nm = norm_of co o.q_normalize tok in
+  let t0 = if cs then tok else lower_str co tok in
+  let inv = starts chBANG t0 in
+  let t1 = if inv then tl t0 else t0 in
+  let suf = (&&) (negb (str_eqb t1 (chDOLLAR :: []))) (ends chDOLLAR t1) in
+  let t2 = if suf then removelast t1 else t1 in
+  let plain = if (||) (negb o.q_fuzzy) inv then KExact else KFuzzy in
+  let flipped = if (&&) o.q_fuzzy (negb inv) then KExact else KFuzzy in
+  if (&&) ((&&) (Nat.ltb (S (S O)) (length t2)) (starts chQUOTE t2))
+       (ends chQUOTE t2)
+  then let k = KBoundary in
+       let t3 = removelast (tl t2) in
+       (match t3 with
+        | [] -> None
+        | _ :: _ ->
+          Some { t_kind = k; t_inv = inv; t_text =
+            (if nm then norm_str co t3 else t3); t_cs = cs; t_nm = nm })
+  else if starts chQUOTE t2
+       then let t3 = tl t2 in
+            (match t3 with
+             | [] -> None
+             | _ :: _ ->
+               Some { t_kind = flipped; t_inv = inv; t_text =
+                 (if nm then norm_str co t3 else t3); t_cs = cs; t_nm = nm })
+       else if starts chCARET t2
+            then let k = if suf then KEqual else KPrefix in
+                 let t3 = tl t2 in
+                 (match t3 with
+                  | [] -> None
+                  | _ :: _ ->
+                    Some { t_kind = k; t_inv = inv; t_text =
+                      (if nm then norm_str co t3 else t3); t_cs = cs; t_nm =
+                      nm })
+            else let k = if suf then KSuffix else plain in
+                 (match t2 with
+                  | [] -> None
+                  | _ :: _ ->
+                    Some { t_kind = k; t_inv = inv; t_text =
+                      (if nm then norm_str co t2 else t2); t_cs = cs; t_nm =
+                      nm })
+
+(** val is_bar : char_ops -> qopts -> str -> bool **)
+
+let is_bar co o tok =
+  str_eqb (if case_of co o.q_case tok then tok else lower_str co tok)
+    (chBAR :: [])
+
+(** val groups_aux :
+    char_ops -> qopts -> str list -> sterm list -> bool -> bool -> sterm list
+    list **)
+
+let rec groups_aux co o toks cur join0 bar =
+  match toks with
+  | [] -> emit cur []
+  | t0 :: r ->
+    if (&&) ((&&) (nonemptyb cur) (negb bar)) (is_bar co o t0)
+    then groups_aux co o r cur true true
+    else (match classify co o t0 with
+          | Some tm ->
+            if join0
+            then groups_aux co o r (app cur (tm :: [])) false false
+            else emit cur (groups_aux co o r (tm :: []) false false)
+          | None -> groups_aux co o r cur join0 false)
+
+(** val groups : char_ops -> qopts -> str list -> sterm list list **)
+
+let groups co o toks =
+  groups_aux co o toks [] true false
+
+(** val query_groups : char_ops -> qopts -> str -> sterm list list **)
+
+let query_groups co o q =
+  groups co o (tokens (trim q))
+
+(** val sat_term : char_ops -> scheme -> sterm -> str -> bool **)
+
+let sat_term co sc t0 line =
+  let cs = t0.t_cs in
+  let nm = t0.t_nm in
+  let p = t0.t_text in
+  (match t0.t_kind with
+   | KFuzzy -> subseq_b co cs nm line p
+   | KExact -> substr_b co cs nm line p
+   | KBoundary -> boundary_substr_b co sc cs nm line p
+   | KPrefix -> is_some (prefix_spec co cs nm line p)
+   | KSuffix -> is_some (suffix_spec co cs nm line p)
+   | KEqual -> is_some (equal_spec co cs nm line p))
+
+(** val sat_groups : char_ops -> scheme -> sterm list list -> str -> bool **)
+
+let sat_groups co sc gs line =
+  forallb (existsb (fun t0 -> xorb t0.t_inv (sat_term co sc t0 line))) gs
+
+(** val sat_basic : char_ops -> qopts -> str -> str -> bool **)
+
+let sat_basic co o q line =
+  let cs = case_of co o.q_case q in
+  let nm = norm_of co o.q_normalize q in
+  let p = if cs then q else lower_str co q in
+  if o.q_fuzzy then subseq_b co cs nm line p else substr_b co cs nm line p
+
+(** val sat_query : char_ops -> scheme -> qopts -> str -> str -> bool **)
+
+let sat_query co sc o q line =
+  if o.q_extended
+  then sat_groups co sc (query_groups co o q) line
+  else sat_basic co o q line
+
+type ttype =
+| TermFuzzy
+| TermExact
+| TermExactBoundary
+| TermPrefix
+| TermSuffix
+| TermEqual
+
+type term = { tm_typ : ttype; tm_inv : bool; tm_text : str; tm_cs : bool;
+              tm_nm : bool }
+
+type termSet = term list
+
+type popts = { p_fuzzy : bool; p_v2 : bool; p_extended : bool;
+               p_case : case_mode; p_normalize : bool; p_forward : bool;
+               p_slabCap : z option }
+
+type pattern = { pat_opts : popts; pat_cs : bool; pat_nm : bool;
+                 pat_text : str; pat_sets : termSet list }
+
+(** val qopts_of : popts -> qopts **)
+
+let qopts_of o =
+  { q_fuzzy = o.p_fuzzy; q_extended = o.p_extended; q_case = o.p_case;
+    q_normalize = o.p_normalize }
+
+(** val has_prefix0 : str -> z -> bool **)
+
+let has_prefix0 s c =
+  match s with
+  | [] -> false
+  | x :: _ -> Z.eqb x c
+
+(** val has_suffix0 : str -> z -> bool **)
+
+let has_suffix0 s c =
+  match rev s with
+  | [] -> false
+  | x :: _ -> Z.eqb x c
+
+(** val slice_from1 : str -> str res **)
+
+let slice_from1 = function
+| [] -> Err OutOfRange
+| _ :: t0 -> Ok t0
+
+(** val slice_to_last : str -> str res **)
+
+let slice_to_last s = match s with
+| [] -> Err OutOfRange
+| _ :: _ -> Ok (removelast s)
+
+(** val to_lower0 : char_ops -> str -> str **)
+
+let to_lower0 co s =
+  map (lower1 co) s
+
+(** val normalize_runes : char_ops -> str -> str **)
+
+let normalize_runes co s =
+  map co.co_norm s
+
+(** val replace_esc : str -> str **)
+
+let rec replace_esc = function
+| [] -> []
+| c :: r ->
+  (match r with
+   | [] -> c :: (replace_esc r)
+   | b :: r' ->
+     if (&&) (Z.eqb c (Zpos (XO (XO (XI (XI (XI (XO XH))))))))
+          (Z.eqb b (Zpos (XO (XO (XO (XO (XO XH)))))))
+     then (Zpos (XI (XO (XO XH)))) :: (replace_esc r')
+     else c :: (replace_esc r))
+
+(** val split_blanks : str -> str -> bool -> str list **)
+
+let rec split_blanks s cur inrun =
+  match s with
+  | [] -> (rev cur) :: []
+  | c :: r ->
+    if Z.eqb c (Zpos (XO (XO (XO (XO (XO XH))))))
+    then if inrun
+         then split_blanks r [] true
+         else (rev cur) :: (split_blanks r [] true)
+    else split_blanks r (c :: cur) false
+
+(** val untab : str -> str **)
+
+let untab s =
+  map (fun c ->
+    if Z.eqb c (Zpos (XI (XO (XO XH))))
+    then Zpos (XO (XO (XO (XO (XO XH)))))
+    else c) s
+
+(** val case_sensitive : case_mode -> str -> str -> bool **)
+
+let case_sensitive m text lowerText =
+  match m with
+  | CaseSmart -> negb (str_eqb text lowerText)
+  | CaseIgnore -> false
+  | CaseRespect -> true
+
+(** val strip_ops : bool -> ttype -> str -> ((ttype * bool) * str) res **)
+
+let strip_ops fuzzy typ text =
+  bind
+    (if has_prefix0 text (Zpos (XI (XO (XO (XO (XO XH))))))
+     then bind (slice_from1 text) (fun t0 -> Ok ((TermExact, true), t0))
+     else Ok ((typ, false), text)) (fun r1 ->
+    let (p, text0) = r1 in
+    let (typ0, inv) = p in
+    bind
+      (if (&&)
+            (negb (str_eqb text0 ((Zpos (XO (XO (XI (XO (XO XH)))))) :: [])))
+            (has_suffix0 text0 (Zpos (XO (XO (XI (XO (XO XH)))))))
+       then bind (slice_to_last text0) (fun t0 -> Ok (TermSuffix, t0))
+       else Ok (typ0, text0)) (fun r2 ->
+      let (typ1, text1) = r2 in
+      bind
+        (if (&&)
+              ((&&) (Nat.ltb (S (S O)) (length text1))
+                (has_prefix0 text1 (Zpos (XI (XI (XI (XO (XO XH))))))))
+              (has_suffix0 text1 (Zpos (XI (XI (XI (XO (XO XH)))))))
+         then bind (slice_from1 text1) (fun t0 ->
+                bind (slice_to_last t0) (fun t1 -> Ok (TermExactBoundary, t1)))
+         else if has_prefix0 text1 (Zpos (XI (XI (XI (XO (XO XH))))))
+              then bind (slice_from1 text1) (fun t0 -> Ok
+                     ((if (&&) fuzzy (negb inv) then TermExact else TermFuzzy),
+                     t0))
+              else if has_prefix0 text1 (Zpos (XO (XI (XI (XI (XI (XO
+                        XH)))))))
+                   then bind (slice_from1 text1) (fun t0 -> Ok
+                          ((match typ1 with
+                            | TermSuffix -> TermEqual
+                            | _ -> TermPrefix), t0))
+                   else Ok (typ1, text1)) (fun r3 ->
+        let (typ2, text2) = r3 in Ok ((typ2, inv), text2))))
+
+type pstate = { st_sets : termSet list; st_set : termSet;
+                st_switchSet : bool; st_afterBar : bool }
+
+(** val parse_step : char_ops -> popts -> pstate -> str -> pstate res **)
+
+let parse_step co o st text0 =
+  let lowerText = to_lower0 co text0 in
+  let caseSensitive = case_sensitive o.p_case text0 lowerText in
+  let normalizeTerm =
+    (&&) o.p_normalize (str_eqb lowerText (normalize_runes co lowerText))
+  in
+  let text = if caseSensitive then text0 else lowerText in
+  let typ = if o.p_fuzzy then TermFuzzy else TermExact in
+  if (&&) ((&&) (nonemptyb st.st_set) (negb st.st_afterBar))
+       (str_eqb text ((Zpos (XO (XO (XI (XI (XI (XI XH))))))) :: []))
+  then Ok { st_sets = st.st_sets; st_set = st.st_set; st_switchSet = false;
+         st_afterBar = true }
+  else bind (strip_ops o.p_fuzzy typ text) (fun r ->
+         let (p, text1) = r in
+         let (typ0, inv) = p in
+         if nonemptyb text1
+         then if st.st_switchSet
+              then let sets = app st.st_sets (st.st_set :: []) in
+                   let set = [] in
+                   let textRunes =
+                     if normalizeTerm then normalize_runes co text1 else text1
+                   in
+                   Ok { st_sets = sets; st_set =
+                   (app set ({ tm_typ = typ0; tm_inv = inv; tm_text =
+                     textRunes; tm_cs = caseSensitive; tm_nm =
+                     normalizeTerm } :: [])); st_switchSet = true;
+                   st_afterBar = false }
+              else let sets = st.st_sets in
+                   let set = st.st_set in
+                   let textRunes =
+                     if normalizeTerm then normalize_runes co text1 else text1
+                   in
+                   Ok { st_sets = sets; st_set =
+                   (app set ({ tm_typ = typ0; tm_inv = inv; tm_text =
+                     textRunes; tm_cs = caseSensitive; tm_nm =
+                     normalizeTerm } :: [])); st_switchSet = true;
+                   st_afterBar = false }
+         else Ok { st_sets = st.st_sets; st_set = st.st_set; st_switchSet =
+                st.st_switchSet; st_afterBar = false })
+
+(** val parse_loop :
+    char_ops -> popts -> str list -> pstate -> termSet list res **)
+
+let rec parse_loop co o toks st =
+  match toks with
+  | [] ->
+    Ok
+      (if nonemptyb st.st_set
+       then app st.st_sets (st.st_set :: [])
+       else st.st_sets)
+  | token0 :: rest ->
+    bind (parse_step co o st (untab token0)) (fun st' ->
+      parse_loop co o rest st')
+
+(** val parse_terms : char_ops -> popts -> str -> termSet list res **)
+
+let parse_terms co o s =
+  parse_loop co o (split_blanks (replace_esc s) [] false) { st_sets = [];
+    st_set = []; st_switchSet = false; st_afterBar = false }
+
+(** val trim_left_m : str -> str **)
+
+let trim_left_m s =
+  drop_while (fun c -> Z.eqb c (Zpos (XO (XO (XO (XO (XO XH))))))) s
+
+(** val trim_right_m : nat -> str -> str res **)
+
+let rec trim_right_m fuel s =
+  match fuel with
+  | O -> Err OutOfFuel
+  | S fuel' ->
+    let r = rev s in
+    let sp =
+      match r with
+      | [] -> false
+      | c :: _ -> Z.eqb c (Zpos (XO (XO (XO (XO (XO XH))))))
+    in
+    let esc =
+      match r with
+      | [] -> false
+      | c :: l ->
+        (match l with
+         | [] -> false
+         | b :: _ ->
+           (&&) (Z.eqb c (Zpos (XO (XO (XO (XO (XO XH)))))))
+             (Z.eqb b (Zpos (XO (XO (XI (XI (XI (XO XH)))))))))
+    in
+    if (&&) sp (negb esc)
+    then bind (slice_to_last s) (fun s' -> trim_right_m fuel' s')
+    else Ok s
+
+(** val build_pattern : char_ops -> popts -> str -> pattern res **)
+
+let build_pattern co o q =
+  if o.p_extended
+  then bind (trim_right_m (S (length q)) (trim_left_m q)) (fun s ->
+         bind (parse_terms co o s) (fun sets -> Ok { pat_opts = o; pat_cs =
+           true; pat_nm = o.p_normalize; pat_text = s; pat_sets = sets }))
+  else let lowerString = to_lower0 co q in
+       let normalize =
+         (&&) o.p_normalize
+           (str_eqb lowerString (normalize_runes co lowerString))
+       in
+       let caseSensitive = case_sensitive o.p_case q lowerString in
+       Ok { pat_opts = o; pat_cs = caseSensitive; pat_nm = normalize;
+       pat_text = (if caseSensitive then q else lowerString); pat_sets = [] }
+
+(** val run_algo :
+    char_ops -> scheme -> popts -> ttype -> bool -> bool -> str -> str ->
+    bool -> mres res **)
+
+let run_algo co sc o typ cs nm line pat withPos =
+  let isb = is_ascii line in
+  (match typ with
+   | TermFuzzy ->
+     if o.p_v2
+     then fuzzy_v2 co sc cs nm o.p_forward isb line pat withPos o.p_slabCap
+     else fuzzy_v1 co sc cs nm o.p_forward isb line pat withPos
+   | TermExact -> exact_match co sc cs nm o.p_forward false isb line pat
+   | TermExactBoundary ->
+     exact_match co sc cs nm o.p_forward true isb line pat
+   | TermPrefix -> prefix_match co sc cs nm line pat
+   | TermSuffix -> suffix_match co sc cs nm line pat
+   | TermEqual -> equal_match co sc cs nm line pat)
+
+(** val range_nat : nat -> nat -> nat list **)
+
+let rec range_nat s = function
+| O -> []
+| S n' -> s :: (range_nat (S s) n')
+
+(** val add_pos :
+    bool -> nat list -> nat -> nat -> nat list option -> nat list **)
+
+let add_pos withPos allPos s e pos =
+  if withPos
+  then (match pos with
+        | Some p -> app allPos p
+        | None -> app allPos (range_nat s (sub e s)))
+  else allPos
+
+(** val match_set :
+    char_ops -> scheme -> popts -> termSet -> str -> bool ->
+    ((nat * nat) * z) option -> nat list -> (((nat * nat) * z) option * nat
+    list) res **)
+
+let rec match_set co sc o terms line withPos cur allPos =
+  match terms with
+  | [] -> Ok (cur, allPos)
+  | t0 :: r ->
+    bind
+      (run_algo co sc o t0.tm_typ t0.tm_cs t0.tm_nm line t0.tm_text withPos)
+      (fun m ->
+      match m with
+      | NoMatch ->
+        if t0.tm_inv
+        then match_set co sc o r line withPos (Some ((O, O), Z0)) allPos
+        else match_set co sc o r line withPos cur allPos
+      | Match (s, e, score, pos) ->
+        if t0.tm_inv
+        then match_set co sc o r line withPos cur allPos
+        else Ok ((Some ((s, e), score)), (add_pos withPos allPos s e pos)))
+
+(** val extended_match :
+    char_ops -> scheme -> popts -> termSet list -> str -> bool -> (nat * nat)
+    list -> z -> nat list -> (((nat * nat) list * z) * nat list) res **)
+
+let rec extended_match co sc o sets line withPos offsets0 total allPos =
+  match sets with
+  | [] -> Ok ((offsets0, total), allPos)
+  | ts :: r ->
+    bind (match_set co sc o ts line withPos None allPos) (fun x ->
+      let (cur, allPos') = x in
+      (match cur with
+       | Some p ->
+         let (p0, score) = p in
+         let (s, e) = p0 in
+         extended_match co sc o r line withPos (app offsets0 ((s, e) :: []))
+           (Z.add total score) allPos'
+       | None -> extended_match co sc o r line withPos offsets0 total allPos'))
+
+type mitem = ((nat * nat) list * z) * nat list option
+
+(** val match_item :
+    char_ops -> scheme -> pattern -> str -> bool -> mitem option res **)
+
+let match_item co sc p line withPos =
+  let o = p.pat_opts in
+  if o.p_extended
+  then bind (extended_match co sc o p.pat_sets line withPos [] Z0 [])
+         (fun x ->
+         let (p0, allPos) = x in
+         let (offsets0, total) = p0 in
+         if Nat.eqb (length offsets0) (length p.pat_sets)
+         then Ok (Some ((offsets0, total),
+                (if withPos then Some allPos else None)))
+         else Ok None)
+  else bind
+         (run_algo co sc o (if o.p_fuzzy then TermFuzzy else TermExact)
+           p.pat_cs p.pat_nm line p.pat_text withPos) (fun m ->
+         match m with
+         | NoMatch -> Ok None
+         | Match (s, e, score, pos) ->
+           Ok (Some ((((s, e) :: []), score), pos)))
+
+(** val case_of_z : z -> case_mode **)
+
+let case_of_z z0 =
+  if Z.eqb z0 (Zpos XH)
+  then CaseIgnore
+  else if Z.eqb z0 (Zpos (XO XH)) then CaseRespect else CaseSmart
+
+(** val as_popts : val0 -> popts **)
+
+let as_popts v =
+  { p_fuzzy = (as_bool (arg v O)); p_v2 = (as_bool (arg v (S O)));
+    p_extended = (as_bool (arg v (S (S O)))); p_case =
+    (case_of_z (as_int (arg v (S (S (S O)))))); p_normalize =
+    (as_bool (arg v (S (S (S (S O)))))); p_forward =
+    (as_bool (arg v (S (S (S (S (S O))))))); p_slabCap =
+    (let c = as_int (arg v (S (S (S (S (S (S O))))))) in
+     if Z.ltb c Z0 then None else Some c) }
+
+(** val z_of_ttype : ttype -> z **)
+
+let z_of_ttype = function
+| TermFuzzy -> Z0
+| TermExact -> Zpos XH
+| TermExactBoundary -> Zpos (XO XH)
+| TermPrefix -> Zpos (XI XH)
+| TermSuffix -> Zpos (XO (XO XH))
+| TermEqual -> Zpos (XI (XO XH))
+
+(** val z_of_kind : kind -> z **)
+
+let z_of_kind = function
+| KFuzzy -> Z0
+| KExact -> Zpos XH
+| KBoundary -> Zpos (XO XH)
+| KPrefix -> Zpos (XI XH)
+| KSuffix -> Zpos (XO (XO XH))
+| KEqual -> Zpos (XI (XO XH))
+
+(** val v_term : term -> val0 **)
+
+let v_term t0 =
+  VL ((VI
+    (z_of_ttype t0.tm_typ)) :: ((vbool t0.tm_inv) :: ((vstr t0.tm_text) :: (
+    (vbool t0.tm_cs) :: ((vbool t0.tm_nm) :: [])))))
+
+(** val v_sterm : sterm -> val0 **)
+
+let v_sterm t0 =
+  VL ((VI
+    (z_of_kind t0.t_kind)) :: ((vbool t0.t_inv) :: ((vstr t0.t_text) :: (
+    (vbool t0.t_cs) :: ((vbool t0.t_nm) :: [])))))
+
+(** val v_sets : termSet list -> val0 **)
+
+let v_sets s =
+  VL (map (fun ts -> VL (map v_term ts)) s)
+
+(** val v_groups : sterm list list -> val0 **)
+
+let v_groups s =
+  VL (map (fun ts -> VL (map v_sterm ts)) s)
+
+(** val v_mitem : mitem option res -> val0 **)
+
+let v_mitem = function
+| Ok a ->
+  (match a with
+   | Some m ->
+     let (p, pos) = m in
+     let (offs, score) = p in
+     VL ((VL
+     (map (fun se -> VL ((vnat (fst se)) :: ((vnat (snd se)) :: []))) offs)) :: ((VI
+     score) :: ((match pos with
+                 | Some p0 -> VL (map vnat p0)
+                 | None -> VI (Zneg XH)) :: [])))
+   | None -> VL [])
+| Err _ -> verr
+
+(** val dispatch_pattern : z -> val0 -> val0 option **)
+
+let dispatch_pattern op a =
+  if Z.eqb op (Zpos (XI (XO (XI (XO (XO (XI XH)))))))
+  then let co = ops_of (map as_str (as_list (arg a (S O)))) in
+       Some
+       (match parse_terms co (as_popts (arg a O)) (as_str (arg a (S (S O)))) with
+        | Ok s -> v_sets s
+        | Err _ -> verr)
+  else if Z.eqb op (Zpos (XO (XI (XI (XO (XO (XI XH)))))))
+       then let co = ops_of (map as_str (as_list (arg a (S O)))) in
+            Some
+            (v_groups
+              (groups co (qopts_of (as_popts (arg a O)))
+                (tokens (as_str (arg a (S (S O)))))))
+       else if Z.eqb op (Zpos (XI (XI (XI (XO (XO (XI XH)))))))
+            then let co = ops_of (map as_str (as_list (arg a (S (S O))))) in
+                 let sc = scheme_of (as_int (arg a (S O))) in
+                 Some
+                 (v_mitem
+                   (bind
+                     (build_pattern co (as_popts (arg a O))
+                       (as_str (arg a (S (S (S O)))))) (fun p ->
+                     match_item co sc p (as_str (arg a (S (S (S (S O))))))
+                       (as_bool (arg a (S (S (S (S (S O))))))))))
+            else if Z.eqb op (Zpos (XO (XO (XO (XI (XO (XI XH)))))))
+                 then let co = ops_of (map as_str (as_list (arg a (S (S O)))))
+                      in
+                      let sc = scheme_of (as_int (arg a (S O))) in
+                      let o = qopts_of (as_popts (arg a O)) in
+                      let q = as_str (arg a (S (S (S O)))) in
+                      Some (VL
+                      (map (fun l -> vbool (sat_query co sc o q l))
+                        (as_strs (arg a (S (S (S (S O))))))))
+                 else if Z.eqb op (Zpos (XI (XO (XO (XI (XO (XI XH)))))))
+                      then let co =
+                             ops_of (map as_str (as_list (arg a (S (S O)))))
+                           in
+                           let sc = scheme_of (as_int (arg a (S O))) in
+                           Some
+                           (match build_pattern co (as_popts (arg a O))
+                                    (as_str (arg a (S (S (S O))))) with
+                            | Ok p ->
+                              VL
+                                (map (fun l ->
+                                  match match_item co sc p l false with
+                                  | Ok a0 ->
+                                    (match a0 with
+                                     | Some _ -> VI (Zpos XH)
+                                     | None -> VI Z0)
+                                  | Err _ -> VI (Zneg XH))
+                                  (as_strs (arg a (S (S (S (S O)))))))
+                            | Err _ -> verr)
+                      else if Z.eqb op (Zpos (XO (XI (XO (XI (XO (XI XH)))))))
+                           then let co =
+                                  ops_of (map as_str (as_list (arg a (S O))))
+                                in
+                                Some
+                                (match build_pattern co (as_popts (arg a O))
+                                         (as_str (arg a (S (S O)))) with
+                                 | Ok p ->
+                                   VL
+                                     ((vbool p.pat_cs) :: ((vbool p.pat_nm) :: (
+                                     (vstr p.pat_text) :: ((v_sets p.pat_sets) :: []))))
+                                 | Err _ -> verr)
+                           else if Z.eqb op (Zpos (XI (XI (XO (XI (XO (XI
+                                     XH)))))))
+                                then let co =
+                                       ops_of
+                                         (map as_str (as_list (arg a (S O))))
+                                     in
+                                     Some
+                                     (v_groups
+                                       (query_groups co
+                                         (qopts_of (as_popts (arg a O)))
+                                         (as_str (arg a (S (S O))))))
+                                else None
+
 (** val c_sq : z **)
 
 let c_sq =
@@ -12497,17 +13261,17 @@ let rec strip_prefix p s =
      | [] -> None
      | b :: s' -> if Z.eqb a b then strip_prefix p' s' else None)
 
-(** val has_prefix0 : str -> str -> bool **)
+(** val has_prefix1 : str -> str -> bool **)
 
-let has_prefix0 p s =
+let has_prefix1 p s =
   match strip_prefix p s with
   | Some _ -> true
   | None -> false
 
-(** val has_suffix0 : str -> str -> bool **)
+(** val has_suffix1 : str -> str -> bool **)
 
-let has_suffix0 p s =
-  has_prefix0 (rev p) (rev s)
+let has_suffix1 p s =
+  has_prefix1 (rev p) (rev s)
 
 (** val trim_suffix : str -> str -> str **)
 
@@ -12666,11 +13430,11 @@ let s_fzf_prompt =
 (** val m_a3 : str -> nat option **)
 
 let m_a3 s =
-  if has_prefix0 s_fzf_query s
+  if has_prefix1 s_fzf_query s
   then Some (length s_fzf_query)
-  else if has_prefix0 s_fzf_action s
+  else if has_prefix1 s_fzf_action s
        then Some (length s_fzf_action)
-       else if has_prefix0 s_fzf_prompt s
+       else if has_prefix1 s_fzf_prompt s
             then Some (length s_fzf_prompt)
             else None
 
@@ -12794,7 +13558,7 @@ let s_fzf_colon =
 let parse_placeholder m = match m with
 | [] -> Err OutOfRange
 | _ :: r ->
-  if has_prefix0 s_fzf_colon m
+  if has_prefix1 s_fzf_colon m
   then Ok (no_flags, m)
   else let (fl, t0) = pp_go r no_flags [] in Ok (fl, (c_lb :: t0))
 
@@ -12954,11 +13718,11 @@ let atoi_nz s =
 let parse_range0 s =
   if str_eqb s s_dd
   then Some (new_range0 Z0 Z0)
-  else if has_prefix0 s_dd s
+  else if has_prefix1 s_dd s
        then (match atoi_nz (skipn (S (S O)) s) with
              | Some e -> Some (new_range0 Z0 e)
              | None -> None)
-       else if has_suffix0 s_dd s
+       else if has_suffix1 s_dd s
             then (match atoi_nz (firstn (sub (length s) (S (S O))) s) with
                   | Some b -> Some (new_range0 b Z0)
                   | None -> None)
@@ -13389,7 +14153,7 @@ let expand_ph p m temps =
     let (fl, mm) = fm in
     if (||) (str_eqb mm s_q0) (str_eqb mm s_m_query)
     then Ok (((OWords ((quoted p p.p_query) :: [])), []), temps)
-    else if has_prefix0 s_q_colon mm
+    else if has_prefix1 s_q_colon mm
          then bind (mid (S (S (S O))) mm) (fun body ->
                 match split_nth0 body with
                 | Some rs ->
@@ -13673,9 +14437,9 @@ let rec nat_list_eqb a b =
 
 (** val partition_ok : str -> str -> str list -> nat list -> bool **)
 
-let partition_ok line lead fields starts =
+let partition_ok line lead fields starts0 =
   (&&) (str_eqb (app lead (concat fields)) line)
-    (nat_list_eqb starts (offsets (length lead) fields))
+    (nat_list_eqb starts0 (offsets (length lead) fields))
 
 type fexpr =
 | FIdx of z
@@ -13812,7 +14576,7 @@ let inside_selection ex start fields s e =
     (Nat.leb e
       (add (select_start ex start fields) (length (select_text ex fields))))
 
-type token = { t_text : str; t_prefix : z }
+type token = { t_text0 : str; t_prefix : z }
 
 type delimiter =
 | DAwk
@@ -13834,11 +14598,11 @@ let slice s b e =
 
 (** val with_prefix_lengths : str list -> z -> token list **)
 
-let rec with_prefix_lengths tokens begin0 =
-  match tokens with
+let rec with_prefix_lengths tokens0 begin0 =
+  match tokens0 with
   | [] -> []
   | t0 :: r ->
-    { t_text = t0; t_prefix =
+    { t_text0 = t0; t_prefix =
       begin0 } :: (with_prefix_lengths r
                     (Z.add begin0 (Z.of_nat (length t0))))
 
@@ -13889,20 +14653,21 @@ let rec regex_tokens text begin0 = function
 
 let tokenize0 text = function
 | DAwk ->
-  let (tokens, pl) = awk_tokenizer text in Ok (with_prefix_lengths tokens pl)
+  let (tokens0, pl) = awk_tokenizer text in
+  Ok (with_prefix_lengths tokens0 pl)
 | DStr sep0 -> Ok (with_prefix_lengths (split_after0 sep0 text) Z0)
 | DRegex rx ->
-  bind (regex_tokens text O (rx text)) (fun tokens -> Ok
-    (with_prefix_lengths tokens Z0))
+  bind (regex_tokens text O (rx text)) (fun tokens0 -> Ok
+    (with_prefix_lengths tokens0 Z0))
 
-(** val has_prefix1 : str -> str -> bool **)
+(** val has_prefix2 : str -> str -> bool **)
 
-let has_prefix1 =
+let has_prefix2 =
   is_prefix
 
-(** val has_suffix1 : str -> str -> bool **)
+(** val has_suffix2 : str -> str -> bool **)
 
-let has_suffix1 p s =
+let has_suffix2 p s =
   is_prefix (rev p) (rev s)
 
 (** val contains0 : str -> str -> bool **)
@@ -13916,7 +14681,7 @@ let rec contains0 sub0 s =
 (** val trim_suffix0 : str -> str -> str **)
 
 let trim_suffix0 s suffix =
-  if has_suffix1 suffix s
+  if has_suffix2 suffix s
   then firstn (sub (length s) (length suffix)) s
   else s
 
@@ -14040,11 +14805,11 @@ let dD =
 let parse_range1 s =
   if str_eqb s dD
   then Some (new_range1 Z0 Z0)
-  else if has_prefix1 dD s
+  else if has_prefix2 dD s
        then (match atoi1 (skipn (S (S O)) s) with
              | Some e -> if Z.eqb e Z0 then None else Some (new_range1 Z0 e)
              | None -> None)
-       else if has_suffix1 dD s
+       else if has_suffix2 dD s
             then (match atoi1 (firstn (sub (length s) (S (S O))) s) with
                   | Some b ->
                     if Z.eqb b Z0 then None else Some (new_range1 b Z0)
@@ -14094,8 +14859,8 @@ let ranges_to_string rs =
 
 (** val join_tokens : token list -> str **)
 
-let join_tokens tokens =
-  concat (map (fun t0 -> t0.t_text) tokens)
+let join_tokens tokens0 =
+  concat (map (fun t0 -> t0.t_text0) tokens0)
 
 (** val adj : z -> z -> z **)
 
@@ -14104,51 +14869,51 @@ let adj n i =
 
 (** val collect : token list -> z -> nat -> z -> z -> str list res **)
 
-let rec collect tokens n fuel idx e =
+let rec collect tokens0 n fuel idx e =
   match fuel with
   | O -> if Z.leb idx e then Err OutOfFuel else Ok []
   | S k ->
     if Z.leb idx e
     then if (&&) (Z.leb (Zpos XH) idx) (Z.leb idx n)
-         then bind (get tokens (Z.to_nat (Z.sub idx (Zpos XH)))) (fun t0 ->
-                bind (collect tokens n k (Z.add idx (Zpos XH)) e) (fun r ->
-                  Ok (t0.t_text :: r)))
-         else collect tokens n k (Z.add idx (Zpos XH)) e
+         then bind (get tokens0 (Z.to_nat (Z.sub idx (Zpos XH)))) (fun t0 ->
+                bind (collect tokens0 n k (Z.add idx (Zpos XH)) e) (fun r ->
+                  Ok (t0.t_text0 :: r)))
+         else collect tokens0 n k (Z.add idx (Zpos XH)) e
     else Ok []
 
 (** val transform_one : token list -> range -> token res **)
 
-let transform_one tokens r =
-  let n = Z.of_nat (length tokens) in
+let transform_one tokens0 r =
+  let n = Z.of_nat (length tokens0) in
   let (rb, re) = r in
   bind
     (if Z.eqb rb re
      then if Z.eqb rb Z0
-          then Ok (((join_tokens tokens) :: []), Z0)
+          then Ok (((join_tokens tokens0) :: []), Z0)
           else let idx = adj n rb in
                if (&&) (Z.leb (Zpos XH) idx) (Z.leb idx n)
-               then bind (get tokens (Z.to_nat (Z.sub idx (Zpos XH))))
-                      (fun t0 -> Ok ((t0.t_text :: []),
+               then bind (get tokens0 (Z.to_nat (Z.sub idx (Zpos XH))))
+                      (fun t0 -> Ok ((t0.t_text0 :: []),
                       (Z.sub idx (Zpos XH))))
                else Ok ([], Z0)
      else if Z.eqb rb Z0
           then let b = Zpos XH in
                let e = adj n re in
                bind
-                 (collect tokens n (Z.to_nat (Z.add (Z.sub e b) (Zpos XH))) b
-                   e) (fun parts -> Ok (parts,
+                 (collect tokens0 n (Z.to_nat (Z.add (Z.sub e b) (Zpos XH)))
+                   b e) (fun parts -> Ok (parts,
                  (Z.max Z0 (Z.sub b (Zpos XH)))))
           else if Z.eqb re Z0
                then let b = adj n rb in
                     bind
-                      (collect tokens n
+                      (collect tokens0 n
                         (Z.to_nat (Z.add (Z.sub n b) (Zpos XH))) b n)
                       (fun parts -> Ok (parts,
                       (Z.max Z0 (Z.sub b (Zpos XH)))))
                else let b = adj n rb in
                     let e = adj n re in
                     bind
-                      (collect tokens n
+                      (collect tokens0 n
                         (Z.to_nat (Z.add (Z.sub e b) (Zpos XH))) b e)
                       (fun parts -> Ok (parts,
                       (Z.max Z0 (Z.sub b (Zpos XH)))))) (fun pm ->
@@ -14156,16 +14921,16 @@ let transform_one tokens r =
     let merged = concat parts in
     bind
       (if Z.ltb min_idx n
-       then bind (get tokens (Z.to_nat min_idx)) (fun t0 -> Ok t0.t_prefix)
-       else Ok Z0) (fun pl -> Ok { t_text = merged; t_prefix = pl }))
+       then bind (get tokens0 (Z.to_nat min_idx)) (fun t0 -> Ok t0.t_prefix)
+       else Ok Z0) (fun pl -> Ok { t_text0 = merged; t_prefix = pl }))
 
 (** val transform : token list -> range list -> token list res **)
 
-let rec transform tokens = function
+let rec transform tokens0 = function
 | [] -> Ok []
 | r :: rest ->
-  bind (transform_one tokens r) (fun t0 ->
-    bind (transform tokens rest) (fun ts -> Ok (t0 :: ts)))
+  bind (transform_one tokens0 r) (fun t0 ->
+    bind (transform tokens0 rest) (fun ts -> Ok (t0 :: ts)))
 
 (** val strip_last_delimiter : str -> delimiter -> str res **)
 
@@ -14193,13 +14958,13 @@ let rec map_last f = function
 (** val transform_input : str -> range list -> delimiter -> token list res **)
 
 let transform_input line nth0 d =
-  bind (tokenize0 line d) (fun tokens ->
-    bind (transform tokens nth0) (fun ret ->
+  bind (tokenize0 line d) (fun tokens0 ->
+    bind (transform tokens0 nth0) (fun ret ->
       if is_awk d
       then Ok ret
       else map_last (fun t0 ->
-             bind (strip_last_delimiter t0.t_text d) (fun s -> Ok { t_text =
-               s; t_prefix = t0.t_prefix })) ret))
+             bind (strip_last_delimiter t0.t_text0 d) (fun s -> Ok
+               { t_text0 = s; t_prefix = t0.t_prefix })) ret))
 
 type match_fn = str -> ((nat * nat) * nat list) option
 
@@ -14208,7 +14973,7 @@ type match_fn = str -> ((nat * nat) * nat list) option
 let rec iter pfun = function
 | [] -> None
 | part :: rest ->
-  (match pfun part.t_text with
+  (match pfun part.t_text0 with
    | Some p ->
      let (p0, pos) = p in
      let (s, e) = p0 in
@@ -14223,25 +14988,25 @@ let rec iter pfun = function
 
 let nth_match pfun line nth0 d =
   match nth0 with
-  | [] -> Ok (iter pfun ({ t_text = line; t_prefix = Z0 } :: []))
+  | [] -> Ok (iter pfun ({ t_text0 = line; t_prefix = Z0 } :: []))
   | _ :: _ ->
-    bind (transform_input line nth0 d) (fun tokens -> Ok (iter pfun tokens))
+    bind (transform_input line nth0 d) (fun tokens0 -> Ok (iter pfun tokens0))
 
 (** val nth_transformer : range list -> token list -> str res **)
 
-let nth_transformer nth0 tokens =
-  bind (transform tokens nth0) (fun ts -> Ok (join_tokens ts))
+let nth_transformer nth0 tokens0 =
+  bind (transform tokens0 nth0) (fun ts -> Ok (join_tokens ts))
 
 (** val accept_nth : str -> range list -> delimiter -> str res **)
 
 let accept_nth line nth0 d =
-  bind (tokenize0 line d) (fun tokens ->
-    bind (nth_transformer nth0 tokens) (fun s -> strip_last_delimiter s d))
+  bind (tokenize0 line d) (fun tokens0 ->
+    bind (nth_transformer nth0 tokens0) (fun s -> strip_last_delimiter s d))
 
 (** val vtok : token -> val0 **)
 
 let vtok t0 =
-  VL ((vstr t0.t_text) :: ((VI t0.t_prefix) :: []))
+  VL ((vstr t0.t_text0) :: ((VI t0.t_prefix) :: []))
 
 (** val vtoks : token list -> val0 **)
 
@@ -14251,7 +15016,7 @@ let vtoks ts =
 (** val as_tok : val0 -> token **)
 
 let as_tok v =
-  { t_text = (as_str (arg v O)); t_prefix = (as_int (arg v (S O))) }
+  { t_text0 = (as_str (arg v O)); t_prefix = (as_int (arg v (S O))) }
 
 (** val as_toks : val0 -> token list **)
 
@@ -14675,28 +15440,29 @@ let skipped ig p b =
 let pruned o ig p b =
   (||) ((&&) (negb o.o_hidden) (hidden_name b)) (skipped ig p b)
 
-(** val emit : bool -> str -> str list **)
+(** val emit0 : bool -> str -> str list **)
 
-let emit b p =
+let emit0 b p =
   if b then p :: [] else []
 
 (** val list_entry : wopts -> str list -> str -> entry -> str list **)
 
 let rec list_entry o ig d = function
-| File nm -> emit o.o_file (child d nm)
+| File nm -> emit0 o.o_file (child d nm)
 | Dir (nm, ch) ->
   let p = child d nm in
   if pruned o ig p nm
   then []
-  else app (emit o.o_dir (with_sep p)) (flat_map (list_entry o ig p) ch)
-| SymFile nm -> emit o.o_file (child d nm)
+  else app (emit0 o.o_dir (with_sep p)) (flat_map (list_entry o ig p) ch)
+| SymFile nm -> emit0 o.o_file (child d nm)
 | SymDir (nm, tg) ->
   let p = child d nm in
   if o.o_follow
   then if pruned o ig p nm
        then []
-       else app (emit o.o_file (with_sep p)) (flat_map (list_entry o ig p) tg)
-  else emit o.o_file p
+       else app (emit0 o.o_file (with_sep p))
+              (flat_map (list_entry o ig p) tg)
+  else emit0 o.o_file p
 
 (** val listing : wopts -> str list -> str -> entry list -> str list **)
 
@@ -14706,7 +15472,7 @@ let listing o ig root ch =
   then flat_map (list_entry o ig d) ch
   else if pruned o ig d (base_name d)
        then []
-       else app (emit o.o_dir (with_sep d)) (flat_map (list_entry o ig d) ch)
+       else app (emit0 o.o_dir (with_sep d)) (flat_map (list_entry o ig d) ch)
 
 (** val listing_roots :
     wopts -> str list -> (str * entry list) list -> str list **)
@@ -14714,7 +15480,7 @@ let listing o ig root ch =
 let listing_roots o ig roots =
   flat_map (fun rc -> listing o ig (fst rc) (snd rc)) roots
 
-type kind =
+type kind0 =
 | KFile
 | KDir
 | KSymFile
@@ -14724,7 +15490,7 @@ type action0 =
 | Continue
 | SkipDir
 
-(** val kind_of : entry -> kind **)
+(** val kind_of : entry -> kind0 **)
 
 let kind_of = function
 | File _ -> KFile
@@ -14841,7 +15607,7 @@ let push b p =
   if b then p :: [] else []
 
 (** val walk_fn :
-    wopts -> ((str list * str list) * str list) -> str -> kind -> (str
+    wopts -> ((str list * str list) * str list) -> str -> kind0 -> (str
     list * action0) res **)
 
 let walk_fn o ign path0 k =
@@ -14879,7 +15645,7 @@ let walk_fn o ign path0 k =
                                   Ok ((push wanted path1), Continue))
        else Ok ((push wanted path), Continue)
 
-type callback = str -> kind -> (str list * action0) res
+type callback = str -> kind0 -> (str list * action0) res
 
 (** val fw_entry : callback -> bool -> str -> entry -> str list res **)
 
@@ -14996,7 +15762,7 @@ let as_root v =
 let as_roots v =
   map as_root (as_list v)
 
-(** val as_kind : z -> kind **)
+(** val as_kind : z -> kind0 **)
 
 let as_kind z0 =
   if Z.eqb z0 (Zpos XH)
@@ -15067,12 +15833,15 @@ let dispatch op a =
           (match dispatch_option op a with
            | Some v -> v
            | None ->
-             (match dispatch_placeholder op a with
+             (match dispatch_pattern op a with
               | Some v -> v
               | None ->
-                (match dispatch_token op a with
+                (match dispatch_placeholder op a with
                  | Some v -> v
                  | None ->
-                   (match dispatch_walk op a with
+                   (match dispatch_token op a with
                     | Some v -> v
-                    | None -> verr))))))
+                    | None ->
+                      (match dispatch_walk op a with
+                       | Some v -> v
+                       | None -> verr)))))))
